@@ -97,6 +97,18 @@ def make_units(tier):
                                        credit='max', ending='flag' if tg == 'A' else 'complete'))
                     units.append({'name': 'lazy-reverse:%s%s+%s%s' % (ka, ia, kb, ib), 'inters': ds, 'flavour': flavour, 'fs': fs, 'bound': 1,
                                   'shard': [0, 1], 'lazy_reverse': True})
+    # all further credit granted by subscription.request(n) from inside on_subscribe on top of a small initial request-n, and never
+    # again: every element beyond the initial credit depends on that one call
+    for flavour in ('tcp', 'msg'):
+        for fs in (None, 64):
+            for kd in ('stream', 'channel'):
+                for init in ('c', 's'):
+                    for pub in ('manual', 'gen'):
+                        ds = [dict(kind=kd, init=init, tag='A', down=3, up=1 if kd == 'channel' else 0, size='F' if fs else 'S', pub=pub, credit='onsub',
+                                   ending='flag' if pub == 'gen' else 'complete'),
+                              dict(kind='rr', init='s' if init == 'c' else 'c', tag='B', rr_mode='now', size='F' if fs else 'S')]
+                        units.append({'name': 'credit-in-on_subscribe:%s%s/%s' % (kd, init, pub), 'inters': ds, 'flavour': flavour, 'fs': fs, 'bound': 1,
+                                      'shard': [0, 1]})
     return units
 
 
